@@ -202,7 +202,7 @@ func gen(t *rapid.T) Case {
 			rt.Limit = rapid.SampledFrom([]string{"client", "server"}).Draw(t, l+"/limit")
 			limited = true
 		}
-		rt.SetReq = genKVs(t, l+"/setreq", []string{"X-Custom-A", "x-from-proxy", "X-MiXeD-CaSe", "Accept", "User-Agent", "X-Set-Only"}, 3)
+		rt.SetReq = genKVs(t, l+"/setreq", []string{"X-Custom-A", "x-from-proxy", "X-MiXeD-CaSe", "Accept", "User-Agent", "X-Set-Only", "X-Forwarded-Proto", "X-Forwarded-Host"}, 3)
 		if rt.Kind == "http" {
 			rt.SetResp = genKVs(t, l+"/setresp", []string{"X-Backend", "x-added-by-frp", "Cache-Control", "Set-Cookie"}, 3)
 		}
@@ -674,6 +674,12 @@ func run(c Case) error {
 				want.Set(kv.K, kv.V)
 			}
 			ignore := map[string]bool{"X-Forwarded-For": true, "X-Forwarded-Host": true, "X-Forwarded-Proto": true, "Content-Length": true, "Transfer-Encoding": true, "Connection": true}
+			for _, kv := range rt.SetReq {
+				// a forwarding header the operator declares is a declared rewrite like any other: it wins
+				if ck := textproto.CanonicalMIMEHeaderKey(kv.K); ck == "X-Forwarded-Proto" || ck == "X-Forwarded-Host" {
+					delete(ignore, ck)
+				}
+			}
 			if v, sent := want["Accept-Encoding"]; !sent || strings.TrimSpace(strings.Join(v, "")) == "" {
 				ignore["Accept-Encoding"] = true // the standard transport may ask for gzip on its own; the backend never compresses
 			}
